@@ -16,16 +16,16 @@ EXPECTED_USES = [
     "bisync.go:parseAofReplayUnits: if ro.outFilter.FilterCmd(sCmd) [in !(strings.EqualFold(sCmd, \"select\")) ; sCmd != \"ping\"]",
     "bisync.go:parseAofReplayUnits: newArgv, reject := ro.outFilter.FilterCmdKey(sCmd, argv)",
     "bisync_rdb.go:rdbReplayBisync: if ro.outFilter.FilterDb(int(e.DB))",
-    "bisync_rdb.go:rdbReplayBisync: if ro.outFilter.FilterKey(string(e.Key)) || ro.outFilter.FilterSlot(string(e.Key)) || isBisyncNamespaceKey(string(e.Key)) [in !(ro.outFilter.FilterDb(int(e.DB)))]",
-    "bisync_rdb.go:rdbReplayBisync: if ro.outFilter.FilterKey(string(e.Key)) || ro.outFilter.FilterSlot(string(e.Key)) || isBisyncNamespaceKey(string(e.Key)) [in !(ro.outFilter.FilterDb(int(e.DB)))]",
+    "bisync_rdb.go:rdbReplayBisync: if ro.outFilter.FilterKey(string(e.Key)) || ro.outFilter.FilterSlot(string(e.Key)) || isBisyncNamespaceKey(string(e.Key)) || ro.bisyncRdbTargetReserved(e.Key) [in !(ro.outFilter.FilterDb(int(e.DB)))]",
+    "bisync_rdb.go:rdbReplayBisync: if ro.outFilter.FilterKey(string(e.Key)) || ro.outFilter.FilterSlot(string(e.Key)) || isBisyncNamespaceKey(string(e.Key)) || ro.bisyncRdbTargetReserved(e.Key) [in !(ro.outFilter.FilterDb(int(e.DB)))]",
     "output.go:parseAofCommand: bypass = ro.outFilter.FilterDb(n) [in strings.EqualFold(sCmd, \"select\") ; sCmd != \"ping\"]",
     "output.go:parseAofCommand: if ro.outFilter.FilterCmd(sCmd) [in !(strings.EqualFold(sCmd, \"select\")) ; sCmd != \"ping\"]",
     "output.go:parseAofCommand: newArgv, reject = ro.bisyncNsFilter.FilterCmdKey(sCmd, newArgv) [in !reject]",
     "output.go:parseAofCommand: newArgv, reject = ro.outFilter.FilterCmdKey(sCmd, argv)",
     "output.go:rdbReplay: if ro.outFilter.FilterDb(int(e.DB))",
-    "output.go:rdbReplay: if ro.outFilter.FilterKey(util.BytesToString(e.Key)) || ro.outFilter.FilterSlot(util.BytesToString(e.Key)) || ro.bisyncNsFilter.FilterKey(util.BytesToString(e.Key)) [in !(ro.outFilter.FilterDb(int(e.DB)))]",
-    "output.go:rdbReplay: if ro.outFilter.FilterKey(util.BytesToString(e.Key)) || ro.outFilter.FilterSlot(util.BytesToString(e.Key)) || ro.bisyncNsFilter.FilterKey(util.BytesToString(e.Key)) [in !(ro.outFilter.FilterDb(int(e.DB)))]",
-    "output.go:rdbReplay: if ro.outFilter.FilterKey(util.BytesToString(e.Key)) || ro.outFilter.FilterSlot(util.BytesToString(e.Key)) || ro.bisyncNsFilter.FilterKey(util.BytesToString(e.Key)) [in !(ro.outFilter.FilterDb(int(e.DB)))]",
+    "output.go:rdbReplay: if ro.outFilter.FilterKey(util.BytesToString(e.Key)) || ro.outFilter.FilterSlot(util.BytesToString(e.Key)) || ro.bisyncNsFilter.FilterKey(util.BytesToString(e.Key)) || ro.bisyncRdbTargetReserved(e.Key) [in !(ro.outFilter.FilterDb(int(e.DB)))]",
+    "output.go:rdbReplay: if ro.outFilter.FilterKey(util.BytesToString(e.Key)) || ro.outFilter.FilterSlot(util.BytesToString(e.Key)) || ro.bisyncNsFilter.FilterKey(util.BytesToString(e.Key)) || ro.bisyncRdbTargetReserved(e.Key) [in !(ro.outFilter.FilterDb(int(e.DB)))]",
+    "output.go:rdbReplay: if ro.outFilter.FilterKey(util.BytesToString(e.Key)) || ro.outFilter.FilterSlot(util.BytesToString(e.Key)) || ro.bisyncNsFilter.FilterKey(util.BytesToString(e.Key)) || ro.bisyncRdbTargetReserved(e.Key) [in !(ro.outFilter.FilterDb(int(e.DB)))]",
 ]
 
 EXPECTED_HANDOFF = [
@@ -66,7 +66,7 @@ EXPECTED_EXTRACTOR_ROWS = [
 ]
 
 PROP = {
-    "lean_modules": ["GunYu.Props.C10", "GunYu.Props.C10Gen"],
+    "lean_modules": ["GunYu.Props.C10", "GunYu.Props.C10Gen", "GunYu.Props.C10Trie"],
     "audit_namespaces": ["GunYu.Props.C10"],
     "required_theorems": [
         "GunYu.Props.C10.rangeLookup_iff",
@@ -93,6 +93,18 @@ PROP = {
         "GunYu.Props.C10.gen_insertSlotInList_eq_model",
         "GunYu.Props.C10.gen_insertAll_eq_model",
         "GunYu.Props.C10.gen_rangeLookup_iff",
+        # pkg/filter/trie.go and FilterCmd / FilterKey TRANSLATED each run (Gen/FnTrie.lean, heap of map-linked nodes as a tree with cursors):
+        # refinement of the hand model, both uses (exact lists / prefix lists) about the ONE generated Insert, any insertion order
+        "GunYu.Props.C10.gen_newTrie_refines",
+        "GunYu.Props.C10.gen_trieInsert_refines",
+        "GunYu.Props.C10.gen_trieSearch_eq_model",
+        "GunYu.Props.C10.gen_trieIsPrefixMatch_eq_model",
+        "GunYu.Props.C10.gen_trieInsertAll_refines",
+        "GunYu.Props.C10.gen_trie_search_iff",
+        "GunYu.Props.C10.gen_trie_prefix_iff",
+        "GunYu.Props.C10.gen_filterCmd_eq_model",
+        "GunYu.Props.C10.gen_filterKey_eq_model",
+        "GunYu.Props.C10.gen_parseCommandInt_eq_model",
     ],
     "expected_facts": {
         "output_filter_wiring": EXPECTED_WIRING,
@@ -114,9 +126,11 @@ PROP = {
         {"name": "C10", "pkg": "./pkg/filter/", "test": "TestVerifC10"},
         {"name": "C10out", "pkg": "./syncer/", "test": "TestVerifC10"},
         {"name": "C10cfg", "pkg": "./config/", "test": "TestVerifC10"},
+        # the real-goroutine part (8 readers of one built filter) in its own run: thorough tier builds it with the Go race detector
+        {"name": "C10conc", "pkg": "./pkg/filter/", "test": "TestVerifC10conc", "go_flags_thorough": ["-race"]},
     ],
     "driver": "drv_C10",
-    "gens": ["gofn_rangelist", "gofn_keytoslot", "gofn_crc16", "crc16"],
+    "gens": ["gofn_rangelist", "gofn_keytoslot", "gofn_crc16", "crc16", "gofn_trie", "gofn_keyspec"],
     "rule": "generated (configuration, input) pairs, corpus first. Configurations: 0-6 slot-range entries per list drawn to nest / enclose / overlap "
             "left and right / touch / share a left bound / be single-slot / reversed / malformed / exceed 16383, dense (64-slot) and sparse universes; "
             "0-4 prefixes per list with shared prefixes, invalid UTF-8, U+FFFD, the empty string; command black/white lists in random ASCII case; db lists. "
@@ -124,7 +138,9 @@ PROP = {
             "prefix, reserved bookkeeping keys and near misses, brace arrangements, random bytes; a sweep of every slot 0..16383 (step 7 in quick) against "
             "adversarial range sets; commands from both regenerated keyspec tables in random case with arity below/at/above the row, extractor commands in "
             "documented and broken shapes (numkeys 0/too large/non-numeric/leading zeros/up to 19 digits incl. 2^63-1, dangling STORE/BY/GET, STREAMS with odd "
-            "tails), 43 well-formed commands with key positions from the Redis command reference (golden), unknown and non-ASCII command names. "
+            "tails), 49 well-formed commands with key positions from the Redis command reference (golden), unknown and non-ASCII command names. "
+            "Session 5: every (word, longer word with that prefix) pair of 11 pairs inserted in BOTH orders (and around a third word) into each of the four lists and probed with every prefix of the longer word in both cases "
+            "(one Trie serves exact and prefix lists); 8 goroutines reading ONE built filter (FilterKey / FilterSlot on own keys, counted budget) compared with the oracle (what = concurrent-filter). "
             "Real code run: RedisKeyFilter bare (session C10); as wired by NewRedisOutput (C10out) - Filter* directly, the parser loop parseAofCommand on "
             "command streams (SELECT of listed/unlisted dbs, MULTI/EXEC around a switch, PING, sentinel hello, blacklisted names; TargetDb, TargetDbMap and "
             "startDbId drawn in half of the streams), the bisync parser parseAofReplayUnits (standalone mode) on streams of table-resolved commands with "
@@ -142,6 +158,11 @@ PROP = {
         "Redis Cluster HASH_SLOT as transcribed in Model/Slot.lean (proved equal to the model of redis.KeyToSlot in C11)",
         "sort.Search on a list sorted by Left finds the first greater Left (insertSorted is its linear transcription; for the TRANSLATED InsertSlotInList this is now PROVED: "
         "GoSem.sortSearch is the standard library's binary search transcribed and Props/C10Gen shows it returns the model's position on every list sorted by Left); Go map[byte] as a function UInt8 -> Option",
+        "the trie translation (harness/extract/gofn_c10.go, generator gofn_trie -> Gen/FnTrie.lean): pkg/filter/trie.go NewTrie / Insert / IsPrefixMatch / Search and RedisKeyFilter.FilterCmd / FilterKey are "
+        "TRANSLATED on every run; reading of the heap: map[byte]*TrieNode as UInt8 -> Option TrieNode, a *TrieNode variable as a cursor (nil or the path of map keys from the root), a field write as modifyAt, a store of a "
+        "fresh literal into a NIL slot as storeFresh (a store over a linked child is `none` = not modelled). Exact while the nodes form a tree owned by the handle; the generator checks on the whole package that nodes are "
+        "created only by literals with a made map inside the translated functions, the map field occurs only as x.children[k], no field of TrieNode / Trie is assigned or has its address taken elsewhere, and no translated "
+        "function mentions a package-level variable. Props/C10Trie proves the translation REFINES the hand model (TRep) for every word shorter than 2^63-1 bytes and every insertion order",
         "the Go->Lean translator (harness/extract/gofn*.go) and its prelude Basic/GoSem.lean: RangeList.IsSlotInList / InsertSlotInList are translated from range.go on every run "
         "(Gen/FnRangeList.lean; []*Range as a list of optional structs, the receiver as the struct, the statements `append; copy; s[i] = v` read as one insert-at-index, "
         "sort.Search as the transcribed binary search) and proved equal to RangeList.contains / RangeList.insert for every key, every list without nil entries sorted by Left and every pair of bounds; "
@@ -150,14 +171,19 @@ PROP = {
     "assumptions": [
         "command names and option words are ASCII (Go folds case with Unicode rules: Kelvin sign, long s; the model folds ASCII only); configured command names are ASCII",
         "numkeys arguments are below 2^63 (parseCommandInt accumulates in an int64 and wraps beyond; a Redis source rejects such counts before propagation)",
-        "hand-written model functions (range list, trie, extractor bodies, FilterCmdKey, rdbKeep, configFix) are tied by correspondence; the parser loop is the C01 model "
+        "hand-written model functions (extractor bodies, FilterCmdKey, FilterDb, FilterSlot's two-list combination, the Insert* list loops with their case folding, rdbKeep, configFix) are tied by correspondence "
+        "(the range list, the trie and FilterCmd / FilterKey are now regenerated and proved, see trusted); the parser loop is the C01 model "
         "Sender.parseStep instantiated with the concrete filter (pcfgOf) and the bisync parser is the C13 model Bisync.parse, both tied here under generated filter configurations; "
         "the two keyspec tables, the partial-projection list, NoRouteCmds and the reserved prefixes are regenerated from source on every run",
         "every statement of package syncer that consults the filter (file, function, printed condition and guards), the Insert* wiring of NewRedisOutput with its guards, the two "
         "places the configured filter is handed to NewRedisOutput and the absence of any assignment through a filter-configuration field anywhere in the repository, and the definitions of the identifiers passed to Insert* are compared with expected lists",
         "boundary of the rule: a command whose key positions the regenerated table does not resolve passes with all its arguments (EVAL/FCALL with numkeys 0, SORT without STORE, "
         "module commands absent from the table, source keys of CMS.MERGE/TDIGEST.MERGE); the property's quantifier is the table's command set, its agreement with the Redis "
-        "command reference is checked on 43 golden commands only (no vendored command list is available offline)",
+        "command reference is checked on 49 golden commands only (no vendored command list is available offline)",
+        "CLOSED (session 5, /repo 975110c, finding C18-F1 found by C18's oracle shapes): GEORADIUS / GEORADIUSBYMEMBER / SORT key positions are now the ones Redis's own getkeys "
+        "procedures name (last STORE / STOREDIST, option words only behind the fixed arguments, LIMIT's arguments stepped over, a SORT destination spelling an option word left to the "
+        "dynamic resolution); Model/Filter.lean geoLoop / sortLoop re-transcribed, Proofs/FilterKeys re-proved, six golden rows added; proved equal to Redis's procs in Props/C18Movable "
+        "(geo_keys_exact / geo_keys_complete / sort_keys_exact)",
         "bookkeeping keys = the three namespaces the project documents (redis-gunyu-checkpoint*, /redis-gunyu*, redis-gunyu-bisync:*). A bisync link's incremental parser "
         "handles the bisync namespace itself (isBisyncControlCommand: first argument, or any argument of DEL/UNLINK - e.g. RENAME a redis-gunyu-bisync:x passes; C13's subject), "
         "its outFilter deliberately does not list it (the parser must see marker commands)",
@@ -168,9 +194,19 @@ PROP = {
         "SELECT is never subject to the command blacklist (branch order of the parser); PUBLISH always carries a channel (parseAofCommand indexes argv[0] without a length check)",
         "a run resumes (startDbId) where the source database is not listed: bypass starts false (C02's invariant keeps the resume position out of bypassed regions; a blacklist "
         "edited between runs takes effect at the next SELECT)",
+        "snapshot paths with replaceHashTag ON: rdbReplayBisync and (since /repo e867911) the plain rdbReplay additionally withhold an entry whose TARGET key (first brace pair removed) lies in a bookkeeping namespace "
+        "(bisyncRdbTargetReserved, /repo f9044ee, C13's subject; the call is pinned in output_filter_uses); the models rdbKeep / rdbKeepBisync and the snapshot runs of C10out are the replaceHashTag-OFF case, where it is constantly false",
         "snapshot path: observed on string values with replayRdbEnableRestore=false, keyExists=replace, one worker; the decision does not depend on the value type (C03/C20 cover the replay itself)",
     ],
-    "partial": [],
+    "partial": [
+        "NOT regenerated yet: the keyspec extractors (numkeysStepExtractor / fixedKeyExtractor are closures that append to a result slice - gofn has neither closures nor an append accumulator), CommandKeyIndexes, FilterCmdKey, "
+        "FilterDb, the Insert* loops (strings.ToLower/ToUpper): hand models + correspondence + oracle. keyspec.parseCommandInt IS translated each run (generator gofn_keyspec, Gen/FnKeySpec.lean) and proved equal to "
+        "Filter.parseCommandInt for every argument of at most 18 bytes (gen_parseCommandInt_eq_model; 19 digits and more can wrap the int64 accumulator - the declared numkeys assumption)",
+        "harmless rewrites tried against the trie tie (all OK): renamed locals / i += 1 / inlined ch / an extra cursor variable / else-if / nil == x / a changed log line, and - since the proofs of "
+        "gen_filterKey_eq_model / gen_filterCmd_eq_model no longer follow the order of the tests - FilterKey testing the white list first and FilterCmd written as `return a || b`",
+        "NOT done in session 5: FilterDb, FilterCmdKey and the Insert* loops through the second translator (needs range loops over slices, holder-field writes, calls of writing methods, strings.ToLower/ToUpper as "
+        "parameters with an ASCII hypothesis, and for FilterCmdKey make/append accumulators and [][]byte)",
+    ],
 }
 
 MANIFEST = {
